@@ -14,3 +14,15 @@ import SpoxModel.Props.C16
 #print axioms C16.settings_restored_any_body
 #print axioms C16.module_state_inventory
 #print axioms C16.behaviour_after_blocks
+#print axioms C16.runCmd_refines_spec
+#print axioms C16.runCmds_refines_spec
+#print axioms C16.programs_refine_spec
+#print axioms C16.spec_with
+#print axioms C16.specCmd_frame
+#print axioms C16.specCmds_frame
+#print axioms C16.program_setting_restored
+#print axioms C16.program_with_confines
+#print axioms C16.spec_nest
+#print axioms C16.enter_innermost
+#print axioms C16.program_inside_in_force
+#print axioms C16.pinned_program_counterexample
